@@ -192,7 +192,7 @@ def main(argv=None) -> int:
         c.setdefault("id", i)
     nworkers = getattr(mod, "WORKERS", lambda t: 12)(tier)
     nworkers = max(1, min(nworkers, len(cases)))
-    timeout = getattr(mod, "TIMEOUT", lambda t: 600 if t == "quick" else 3600)(tier)
+    timeout = getattr(mod, "TIMEOUT", lambda t: 900 if t == "quick" else 7200)(tier)
     os.environ.setdefault("VERIF_SHARD_BUDGET", str(timeout * 0.85))
     results, problems = run_sharded(modname, cases, nworkers, timeout)
 
